@@ -964,6 +964,18 @@ func genCall(r *common.Rng, f *fspec, maxLen int) *call {
 		if len(c.s1) > 6 {
 			c.s1 = c.s1[:6]
 		}
+		if r.Chance(40) {
+			// different elements with the same key in BOTH sequences: only their order in the result tells
+			// from which sequence a tie was taken (stability)
+			c.key = common.Pick(r, []string{"KAbs", "KSq"})
+			c.test = common.Pick(r, []string{"TLt", "TGt"})
+			a, b := -1, 1
+			if r.Bool() {
+				a, b = 1, -1
+			}
+			c.s1 = append(c.s1, a)
+			c.s2 = append(c.s2, b)
+		}
 		if r.Chance(92) {
 			c.s1 = sortedBy(c.s1, c.test, c.key)
 			c.s2 = sortedBy(c.s2, c.test, c.key)
